@@ -102,9 +102,29 @@ def oracle(line, toks_types, fail):
     return None
 
 
+def check_sdt(ctx, thorough):
+    """K: Token.SDTVal (verifdump sdt) vs extracted Sdt.sdt_val on random ASCII action texts"""
+    import vlib
+    rng = ctx.rng
+    pieces = ["$0", "$1", "$12", "$007", "$T0", "$T13", "$T", "$Tx", "$Context", "$Contextual", "$Con", "$$", "$", "$$3", "X[0]", "foo(", ")", ", ",
+              "nil", "\"$1\"", " ", "\n", "\t", "$9a", "$T4b", "a.b", "$-1", "$ 1", "<<", ">>"]
+    cases = []
+    for _ in range(20000 if thorough else 3000):
+        body = "".join(rng.choice(pieces) for _ in range(rng.randint(0, 8)))
+        cases.append(("<<" + rng.choice(["", " ", "\n "]) + body + rng.choice(["", " ", " \t"]) + ">>").encode())
+    text = "".join(c.hex() + "\n" for c in cases)
+    go = vlib.run_lines([ctx.verifdump, "sdt"], text)
+    mo = vlib.run_lines([ctx.modelrun, "sdt"], text)
+    bad = [(c, g, m) for c, g, m in zip(cases, go, mo) if g != m]
+    ctx.add_obligation("K: Sdt.sdt_val = Token.SDTVal on %d action texts" % len(cases), not bad,
+                       str([(c, bytes.fromhex(g), bytes.fromhex(m)) for (c, g, m) in bad[:2]]))
+    return len(cases)
+
+
 def run(ctx):
     ctx.check_property_file()
     thorough = ctx.tier == "thorough"
+    check_sdt(ctx, thorough)
     cands = [g for g in c02.gen_grammars(ctx, 140 if not thorough else 1200) if not g.has_error()]
     cands.insert(0, cfggen.family(9))   # wide alternatives: $10, $T11, ... (SDT rewriting of two-digit references)
     recs, stats, ws = lrcommon.prepare_parsers(ctx, cands, flags=[])
